@@ -1,0 +1,32 @@
+package streams
+
+import (
+	"io"
+	"net"
+)
+
+// MuxStream is a logical stream of the multiplexer whose end-of-stream is only passed on once everything that
+// arrived before it has been read.
+//
+// smux (v1.5.14) may report end-of-stream while octets that arrived just before the peer's close are still in the
+// stream's buffer: a reader that finds the buffer empty and then finds both "data arrived" and "peer closed"
+// signalled picks either of the two. Another Read returns those octets, so the wrapper asks once more before it
+// believes an end-of-stream. It does not offer the stream's own WriteTo, which has the same flaw.
+type MuxStream struct {
+	net.Conn
+}
+
+func NewMuxStream(stream net.Conn) *MuxStream {
+	return &MuxStream{Conn: stream}
+}
+
+func (m *MuxStream) Read(p []byte) (int, error) {
+	n, err := m.Conn.Read(p)
+	if n == 0 && err == io.EOF && len(p) > 0 {
+		if n, _ = m.Conn.Read(p); n > 0 {
+			return n, nil
+		}
+		return 0, io.EOF
+	}
+	return n, err
+}
